@@ -49,7 +49,7 @@ Definition callee_name (n : node) : string :=
   | NRecv => "restart" | NHit => "ProcessHit" | NMiss => "ProcessMiss" | NPass => "ProcessPass"
   | NFetch => "ProcessFetch" | NError => "ProcessError" | NDeliver => "ProcessDeliver" | NLog => "ProcessLog"
   end.
-Definition switch_ctx : ctx := mkC 0 XNone false true true None [] [] 0 false None.
+Definition switch_ctx : ctx := mkC 0 XNone false true true None [] [] 0 false None 500 None None.
 Definition model_step (sc : scope) (s : state) (p : persistent) : option (list event * next) :=
   match node_of_scope sc with
   | None => None
@@ -90,7 +90,7 @@ Qed.
 Definition model_accepts (sc : scope) (s : state) : bool :=
   let orc := fun sc' (_ : nat) => if scope_eqb sc' sc then action_of_state s else ANone in
   match sc with
-  | Hash => snd (process_hash orc DHashL switch_ctx)
+  | Hash => snd (process_hash orc edge_request DHashL switch_ctx)
   | Log => match process_log orc edge_request switch_ctx init with (_, _, Done) => true | _ => false end
   | _ => false
   end.
